@@ -119,6 +119,13 @@ func (d *Dynamic) Draw(ctx vxfw.DrawContext) (vxfw.Surface, error) {
 
 	s := vxfw.NewSurface(ctx.Max.Width, ctx.Max.Height, d)
 
+	// The builder may have fewer widgets than at the last draw. If the top
+	// widget is gone, start from the last one that still exists
+	for d.scroll.top > 0 && d.Builder(d.scroll.top, d.cursor) == nil {
+		d.scroll.top -= 1
+		d.scroll.offset = 0
+	}
+
 	// Accumulated height is the accumulated height we have drawn. We
 	// initialize it to the scroll offset + any pending scroll we have. We
 	// negate it so that it is lines *above* the viewport.
